@@ -112,10 +112,13 @@ func runC09(w *World) {
 			}
 			got, err := os.ReadFile(partial)
 			if err != nil {
-				if exists || offset > 0 {
+				if offset > 0 {
 					w.Violate("c09-partial-missing", "%s: partial file is missing, the server received %d data bytes", when, offset)
 					return false
 				}
+				// nothing of the data fork has arrived yet: an empty partial file and no partial file are the same
+				// "prefix received"; the model follows what the server chose
+				exists = false
 				return true
 			}
 			if !bytes.Equal(got, data[:offset]) {
